@@ -32,12 +32,24 @@ func main() {
 		}
 		fn(o, replay)
 	case "plugin":
-		pluginMain(os.Args[2:])
+		if len(os.Args) < 3 {
+			os.Exit(2)
+		}
+		fn, ok := pluginScenarios[os.Args[2]]
+		if !ok {
+			fmt.Fprintln(os.Stderr, "unknown plugin scenario", os.Args[2])
+			os.Exit(2)
+		}
+		fn(os.Args[3:])
 	default:
 		os.Exit(2)
 	}
 }
 
-var hostScenarios = map[string]func(o *out, replay string){
-	"C01": hostC01,
-}
+// hostScenarios / pluginScenarios are filled by init() functions in the
+// per-property files (register / registerPlugin).
+var hostScenarios = map[string]func(o *out, replay string){}
+var pluginScenarios = map[string]func(args []string){}
+
+func register(name string, fn func(o *out, replay string)) { hostScenarios[name] = fn }
+func registerPlugin(name string, fn func(args []string))      { pluginScenarios[name] = fn }
